@@ -19,7 +19,10 @@ RULE = ('states = (max profile state | baseline | each single shape group in tho
         '>= 100 tests')
 
 # shapes outside the conventional profile (DESIGN.md section 8) or failing generation
-OUT_OF_PROFILE = {'no_default_host', 'extended_operation', 'subpkg_types', 'subpkg_service', 'recursive_oneof_first'}
+OUT_OF_PROFILE = {'no_default_host', 'extended_operation', 'subpkg_types', 'subpkg_service', 'recursive_oneof_first',
+                  # a paginated RPC whose response is a plain protobuf message of another package: the emitted pager tests are
+                  # written for proto-plus responses (page_.raw_page, <Response>.to_json); the library itself is judged by C03
+                  'paged_request_other_package'}
 ADS_EXTRA_OUT = {'dep_pkg_types', 'iam_types', 'same_basename_imports'}       # D19
 PROFILE = [n for n in edits.EDIT_NAMES if n not in OUT_OF_PROFILE]
 
